@@ -73,6 +73,23 @@ for be, defs in BACKENDS.items():
         if be == 'idn2':
             EMAIL_JOBS.append(n)
 
+# ---- the rest of the high-level API, per back end
+API_REACH = {'eav_init': 1, 'eav_setup': 3, 'eav_free': 1, 'eav_errstr': 2, 'eav_result_free': 1}
+for be, defs in BACKENDS.items():
+    sfx = '' if be == 'idn2' else '@' + be
+    for fn in ('eav_init', 'eav_setup', 'eav_free', 'eav_errstr', 'eav_result_free'):
+        add(Job(fn + sfx, 'harness/eav_api.c', enforce=fn, defines=defs + ['-DJOB_' + fn], timeout=300, reach=API_REACH[fn],
+                expect=['postcondition'] + ([] if fn in ('eav_errstr', 'eav_result_free') else ['assigns']), backend=be, functions=[fn],
+                files=['partial/%s/eav.c' % be, 'src/eav.c'], assumptions=[A2, A7],
+                note='loop-free: complete for every pre-state of the object'))
+
+for be, defs in BACKENDS.items():
+    sfx = '' if be == 'idn2' else '@' + be
+    add(Job('is_utf8_domain' + sfx, 'harness/is_utf8_domain.c', enforce='is_utf8_domain', replace=['is_ascii_domain', 'is_special_domain', 'is_tld'],
+            defines=defs, timeout=600, reach=4 if be != 'idnkit' else 3, leak=(be != 'idnkit'), backend=be, expect=['postcondition', 'assigns'],
+            functions=['is_utf8_domain'], files=['partial/%s/is_utf8_domain.c' % be], assumptions=[A2, A3, A7, A9],
+            note='IDN conversion modelled by its assumed contract: every return code; on failure a buffer may or may not have been produced'))
+
 PROPS = {}
 
 HOOK_COMMITS = ['5cf62d3']
